@@ -347,11 +347,14 @@ Definition node_dispatch (n : node) (m : inmsg) (now : Z) : node :=
     end
   else n.
 
-Inductive nevent := NMsg (m : inmsg) (now : Z) | NTick (now : Z).
+(* NSend: a message the local side originates on its own (the Hello scheduler, runner.go:67-72; session
+   set-up from the LAC side), with any write fault *)
+Inductive nevent := NMsg (m : inmsg) (now : Z) | NTick (now : Z) | NSend (body sid now : Z) (fj : option nat).
 Definition node_step (n : node) (ev : nevent) : node :=
   match ev with
   | NMsg m now => node_dispatch n m now
   | NTick now => if n_known n then mkN true (fst (ep_tick (n_ep n) now [])) else n   (* runner stopped with the tunnel *)
+  | NSend body sid now fj => if n_known n then mkN true (fst (ep_submit (n_ep n) body sid now fj)) else n
   end.
 Definition node_run (n : node) (evs : list nevent) : node := fold_left node_step evs n.
 
